@@ -42,7 +42,8 @@ uint64_t g_cw_blk; unsigned g_cw_off;             /* watch selectors: never assi
 int g_cw_hit; unsigned char g_cw_byte; size_t g_cw_call;
 uint32_t *g_c_state[3]; const unsigned char *g_c_ptr[3]; size_t g_c_n[3];
 uint32_t g_c_out[8];
-unsigned char *g_mc_base; size_t g_mc_doff; int g_mc_calls;   /* memcpy model (below) */
+unsigned char *g_mc_base; size_t g_mc_doff; unsigned g_mc_calls;   /* memcpy model (below) */
+unsigned char *g_mc_big; size_t g_mc_big_idx;
 int g_c_bad;                                       /* a call with n == 0 or with a state pointer that is not 32 writable bytes */
 #define COMPLOG_RESET() do { g_c_calls = 0; g_c_blocks = 0; g_cw_hit = 0; g_cw_byte = 0; g_cw_call = 0; g_c_bad = 0; \
     g_c_state[0] = g_c_state[1] = g_c_state[2] = NULL; g_c_ptr[0] = g_c_ptr[1] = g_c_ptr[2] = NULL; g_c_n[0] = g_c_n[1] = g_c_n[2] = 0; } while (0)
@@ -181,7 +182,7 @@ size_t verif_oi;   /* ghost output index used by the loop invariant of rfc6979_g
     g_hf_len = 0; g_hf_cur = g_hf_prev = g_hf_prev2 = g_hf_last = 0; } while (0)
 static void secp256k1_hmac_sha256_initialize(const secp256k1_hash_ctx *hash_ctx, secp256k1_hmac_sha256 *hash, const unsigned char *key, size_t keylen)
 __CPROVER_requires(__CPROVER_rw_ok(hash, sizeof(*hash)) && (keylen == 0 || __CPROVER_r_ok(key, keylen)) && hash_ctx != NULL)
-__CPROVER_requires(g_hk_n >= 0 && g_hk_n < 1000)
+__CPROVER_requires(g_hk_n >= 0 && g_hk_n < (1 << 30))
 __CPROVER_assigns(*hash, g_hk_n, g_hk_len, g_hk_byte)
 __CPROVER_ensures(hash->inner.bytes == 64 && hash->outer.bytes == 64)
 __CPROVER_ensures(g_hfin_n == g_hwe
@@ -190,7 +191,7 @@ __CPROVER_ensures(g_hfin_n == g_hwe
 ;
 static void secp256k1_hmac_sha256_write(const secp256k1_hash_ctx *hash_ctx, secp256k1_hmac_sha256 *hash, const unsigned char *data, size_t size)
 __CPROVER_requires(__CPROVER_rw_ok(hash, sizeof(*hash)) && (size == 0 || __CPROVER_r_ok(data, size)) && hash_ctx != NULL)
-__CPROVER_requires(hash->inner.bytes >= 64 && hash->inner.bytes <= UINT64_MAX - size && g_hw_hit >= 0 && g_hw_hit < 1000)
+__CPROVER_requires(hash->inner.bytes >= 64 && hash->inner.bytes <= UINT64_MAX - size && g_hw_hit >= 0 && g_hw_hit < (1 << 30))
 __CPROVER_assigns(hash->inner, g_hw_hit, g_hw_byte)
 __CPROVER_ensures(hash->inner.bytes == __CPROVER_old(hash->inner.bytes) + size)
 __CPROVER_ensures((g_hfin_n == g_hwe && __CPROVER_old(hash->inner.bytes) - 64 <= g_hwpos && g_hwpos - (__CPROVER_old(hash->inner.bytes) - 64) < size)
@@ -200,7 +201,7 @@ __CPROVER_ensures((g_hfin_n == g_hwe && __CPROVER_old(hash->inner.bytes) - 64 <=
 static void secp256k1_hmac_sha256_finalize(const secp256k1_hash_ctx *hash_ctx, secp256k1_hmac_sha256 *hash, unsigned char *out32)
 __CPROVER_requires(__CPROVER_rw_ok(hash, sizeof(*hash)) && __CPROVER_w_ok(out32, 32) && hash_ctx != NULL)
 __CPROVER_requires(hash->inner.bytes >= 64 && hash->inner.bytes < ((uint64_t)1 << 61) && hash->outer.bytes == 64)
-__CPROVER_requires(g_hdk < 32 && g_hfin_n >= 0 && g_hfin_n < 1000)
+__CPROVER_requires(g_hdk < 32 && g_hfin_n >= 0 && g_hfin_n < (1 << 30))
 __CPROVER_assigns(*hash, __CPROVER_object_upto(out32, 32), g_hfin_n, g_hf_len, g_hf_cur, g_hf_prev, g_hf_prev2, g_hf_last)
 __CPROVER_ensures(g_hfin_n == __CPROVER_old(g_hfin_n) + 1 && g_hf_last == out32[g_hdk])
 __CPROVER_ensures(__CPROVER_old(g_hfin_n) == g_hwe
@@ -222,6 +223,8 @@ __CPROVER_ensures(g_hf_prev2 == (__CPROVER_old(g_hfin_n) == g_hwe - 2 ? out32[g_
  *    overwritten, at a constant object offset; the byte at the WATCHED object offset g_mc_doff (ghost
  *    selector, unconstrained in the harness) receives the source byte, the other bytes of the range
  *    receive arbitrary values; bytes outside the range are untouched;
+ *  - destination inside the harness-designated symbolic-size buffer g_mc_big: whole buffer havoc'd, the
+ *    watched byte g_mc_big[g_mc_big_idx] gets the source byte or keeps its value (see the code);
  *  - any other destination (small local arrays): exact byte loop, n <= MEMCPY_MAX is an obligation.
  * Obligations: n <= 64, distinct objects, destination range writable, source byte readable.
  * Use: #define VERIF_MEMCPY_MODEL before this header, then
@@ -250,6 +253,20 @@ static void *verif_memcpy64(void *dst, const void *src, size_t n) {
         __CPROVER_assume(off_ >= MC_LO && off_ <= MC_HI && n <= MC_HI - off_);   /* just asserted */
         if (g_mc_doff >= off_ && g_mc_doff - off_ < n) w_ = s_[g_mc_doff - off_];
         for (i_ = MC_LO; i_ < MC_HI; i_++) if (i_ >= off_ && i_ - off_ < n) g_mc_base[i_] = (i_ == g_mc_doff) ? w_ : nondet_uchar_mc();
+        return dst;
+    }
+    if (g_mc_big != NULL) {
+        __CPROVER_assert(__CPROVER_same_object(dst, g_mc_big), "C05 memcpy model: every copy of this unit goes into the designated buffer");
+        /* destination inside the harness-designated symbolic-size buffer (rfc6979 output): the whole buffer is
+         * havoc'd except the WATCHED byte g_mc_big[g_mc_big_idx], which receives the source byte if it lies in
+         * [dst, dst+n) and keeps its value otherwise (over-approximation of memcpy: one havoc + one write). */
+        size_t off_ = __CPROVER_POINTER_OFFSET(dst), sz_ = __CPROVER_OBJECT_SIZE(dst);
+        unsigned char w_ = 0;
+        __CPROVER_assert(__CPROVER_POINTER_OFFSET(g_mc_big) == 0, "C05 memcpy model: designated buffer pointer is the object start");
+        __CPROVER_assert(n == 0 || __CPROVER_w_ok(dst, n), "C05 memcpy model: destination range is writable");
+        if (g_mc_big_idx < sz_) w_ = (g_mc_big_idx >= off_ && g_mc_big_idx - off_ < n) ? s_[g_mc_big_idx - off_] : g_mc_big[g_mc_big_idx];
+        __CPROVER_havoc_object(g_mc_big);
+        if (g_mc_big_idx < sz_) g_mc_big[g_mc_big_idx] = w_;
         return dst;
     }
     for (i_ = 0; i_ < MEMCPY_MAX; i_++) if (i_ < n) d_[i_] = s_[i_];
